@@ -22,7 +22,7 @@ func init() {
 				"Not decided: linearizability of whole histories, the Go memory model beyond lock discipline (no race detector is run).",
 			Rule:        "one obligation per shared location (guarded-by or immutable), per root and lock (single critical section), per dereferenced table lookup, per lock acquisition; non-trivial = location accessed from a root",
 			Assumptions: []string{"go/types + go/ssa", "objects freshly allocated in a function are local until stored into a table", "production folding (E-F) re-verified each run"},
-			MinObl:      14,
+			MinObl:      25,
 		},
 		Configs: tiered(linuxQuick, linuxAll),
 		Run:     runC07,
